@@ -254,10 +254,21 @@ fn render_file(case: &Case, idx: usize, path: &Path, level: usize, ctx: &mut PCt
                 flat.extend_from_slice(format!("$ORIGIN {}\n", origin_text(o)).as_bytes());
             }
             // afterwards: the included file's context, with the includer's origin restored
+            let child_origin_must_not_leak = includer_origin.is_none() && child_ctx.origin.is_some();
             *ctx = PCtx {
                 origin: includer_origin,
                 ..child_ctx
             };
+            // The includer had no origin and the included file ended with one: in one such case in
+            // three the next line of the includer has a relative owner, which is an error here
+            // (no origin is in effect again); everything before it must still be produced.
+            if child_origin_must_not_leak && child.position % 3 == 1 {
+                text.extend_from_slice(b"origin-leak-probe 300 IN TXT \"x\"\n");
+                *flat_ok = false;
+                out.error = Some("relative name where no origin is in effect");
+                out.files.insert(path.to_path_buf(), text);
+                return false;
+            }
         }
         if slot < spec.runs.len() {
             let run = &spec.runs[slot];
